@@ -132,8 +132,16 @@ def run(ctx) -> list[Inst]:
             if exc and kinds <= set(exc) | {'entry_points.append', 'add_entry_point'}:
                 # the exception covers exactly the already-exists guard in front of the sink: reaching that
                 # guard counts as reaching the sink; any other way back to the loop header is a dropped element
+                def _guard_text(g):
+                    # the test itself, or the single definition of a flag it tests (`already = any(exists(..)..)`)
+                    txt = stmt_text(g.ast.test, 400)
+                    for nm in [x.id for x in ast.walk(g.ast.test) if isinstance(x, ast.Name)]:
+                        ds = cfg.reaching(g, nm)
+                        if len(ds) == 1 and ds[0].kind == 'stmt' and isinstance(ds[0].ast, ast.Assign):
+                            txt += ' ' + stmt_text(ds[0].ast.value, 600)
+                    return txt
                 guards = {g.idx for g in body if g.kind == 'if' and g.loop is h
-                          and 'association_exists_between_assets' in stmt_text(g.ast.test)
+                          and 'association_exists_between_assets' in _guard_text(g)
                           and any(cfg.dominates(g, sn) for sn, k in sinks.values() if k == 'add_association')}
                 bad2 = _path_avoiding(cfg, h, set(sinks) | guards) if guards else bad
                 if bad2 is None:
@@ -343,23 +351,47 @@ def _order_and_break(ctx, f, fname, props) -> list[Inst]:
 
 
 def _path_avoiding(cfg, h, sink_idx):
-    """a CFG node on a path header -T-> ... -> header that avoids the sink nodes (None if none)."""
-    seen = {}
-    st = [(t, None) for t, l in h.succ if l == 'T']
+    """a CFG node on a path header -T-> ... -> header that avoids the sink nodes (None if none).  Boolean flags
+    (`ok = False` ... `if not ok: return`) are followed along the path: a branch that contradicts the constant last
+    assigned to the tested name is not taken."""
+    seen = set()
+    st = [(t, None, ()) for t, l in h.succ if l == 'T']
     while st:
-        x, prev = st.pop()
+        x, prev, flags = st.pop()
         if x is h:
             return prev or h
-        if x.idx in seen or x.idx in sink_idx or not _inside(x, h):
+        if (x.idx, flags) in seen or x.idx in sink_idx or not _inside(x, h):
             continue
-        seen[x.idx] = prev
+        seen.add((x.idx, flags))
+        fl = dict(flags)
+        if x.kind == 'stmt' and isinstance(x.ast, ast.Assign) and len(x.ast.targets) == 1 \
+                and isinstance(x.ast.targets[0], ast.Name):
+            nm = x.ast.targets[0].id
+            if isinstance(x.ast.value, ast.Constant) and isinstance(x.ast.value.value, (bool, type(None))):
+                fl[nm] = bool(x.ast.value.value)
+            else:
+                fl.pop(nm, None)
+        elif x.kind in ('stmt', 'for', 'with'):
+            for nm in cfg.defs_of(x):
+                fl.pop(nm, None)
+        forced = None
+        if x.kind == 'if':
+            t_ = x.ast.test
+            neg = False
+            if isinstance(t_, ast.UnaryOp) and isinstance(t_.op, ast.Not):
+                neg, t_ = True, t_.operand
+            if isinstance(t_, ast.Name) and t_.id in fl:
+                forced = 'T' if (fl[t_.id] != neg) else 'F'
         presence = x.kind == 'if' and _is_presence_test(x.ast.test)
+        nflags = tuple(sorted(fl.items()))
         for t, lab in x.succ:
             if t is cfg.raise_exit or t is cfg.exit:
                 continue
             if presence and lab == 'F':
                 continue        # the element does not carry the value: nothing to transfer
-            st.append((t, x))
+            if forced is not None and lab in ('T', 'F') and lab != forced:
+                continue
+            st.append((t, x, nflags))
     return None
 
 
